@@ -51,6 +51,7 @@ R.contract(M + "_extract_enclosing_text",
                # conservation: nothing is lost or invented, only moved from the value to head / tail
                "result[0] + result[1] + result[2] == head + in_val + tail",
                "result[0][:len(head)] == head",
+               "result[2][len(result[2]) - len(tail):] == tail",
                "len(result[1]) <= len(in_val)",
                # the value returned has no allowed enclosing text left (so the lookup key does not depend on quoting)
                "Stripped(result[1])",
@@ -58,9 +59,12 @@ R.contract(M + "_extract_enclosing_text",
            loops={0: LoopContract([], invariant=[
                "head + val + tail == entry_head + entry_in_val + entry_tail",
                "head[:len(entry_head)] == entry_head",
+               "tail[len(tail) - len(entry_tail):] == entry_tail",
                "len(val) <= len(entry_in_val)",
                "implies(not changed, Stripped(val))",
-           ], decreases="2 * len(val) + (1 if changed else 0)", stepwise=["head + val + tail"])})
+           ], decreases="2 * len(val) + (1 if changed else 0)",
+               stepwise=["head + val + tail", "tail[len(tail) - len(entry_tail):]", "head[:len(entry_head)]"],
+               stepwise_for=["0", "1", "2"], stepwise_ctx=[1, 2])})
 
 R.contract(M + "_split_line",
            types={"line": STR}, returns=Tup(STR, Ty("list", STR), STR), pure=True,
@@ -145,3 +149,21 @@ R.contract(M + "_anonymize_value",
                )
            ] + [
            ])
+
+
+R.contract(M + "replace_matching_item", record=True,
+           types={"compiled_regexes": Ty("list", Opq("ReGroup")), "input_line": STR, "pwd_lookup": LOOKUP,
+                  "salt": Opt(STR), "reserved_words": SetT(STR)}, returns=STR,
+           modifies=["pwd_lookup", "log"],
+           ensures=[
+               # the line keeps its own leading and trailing whitespace (incl. the line terminator) (C12)
+               "implies(len(lstrip(input_line)) > 0, result[:len(lws(input_line))] == lws(input_line))",
+               "result[len(result) - len(rws(input_line)):] == rws(input_line)",
+               # secrets recorded earlier are never forgotten or changed (C08)
+               "all(k in pwd_lookup and pwd_lookup[k] == old(pwd_lookup)[k] for k in old(pwd_lookup))",
+           ],
+           loops={0: LoopContract(["compiled_regex_grp"], index="_i0", heap_modifies=["pwd_lookup"], invariant=[
+                      "all(k in pwd_lookup and pwd_lookup[k] == old(pwd_lookup)[k] for k in old(pwd_lookup))"]),
+                  1: LoopContract(["compiled_re", "sensitive_item_num"], index="_i1", heap_modifies=["pwd_lookup"], invariant=[
+                      "all(k in pwd_lookup and pwd_lookup[k] == old(pwd_lookup)[k] for k in old(pwd_lookup))"]),
+                  "sub1": LoopContract([], invariant=["True"])})
